@@ -15,6 +15,7 @@ registry) and user dicts numbered in creation order:
   ["defunit", r, sym, v, q, pf]                    define_unit(sym, (v, q), prefixable=pf, registry=r)
   ["newsys", r, name, [length, mass, time]]        UnitSystem(name, …, registry=r)
   ["mixed", a, b, form, qa, qb]                    arithmetic between objects of registries a and b
+  ["namespace", r, "symbols"|"constants"]          add_symbols / add_constants(namespace, registry=r)
 
 `World.step` executes one step and returns its canonical outcome; `World.observe(i)` is a NON-mutating
 observation of what registry i resolves (table rows that were not written back, the resolution of a
@@ -256,6 +257,24 @@ class World:
             return ("done",), [], r
         except Exception as e:  # noqa: BLE001
             return exc(e), [], r
+
+    def _namespace(self, r, kind):
+        """add_symbols / add_constants: a namespace of units / constants bound to registry r"""
+        from unyt.unit_systems import add_constants, add_symbols
+
+        ns = {}
+        try:
+            (add_symbols if kind == "symbols" else add_constants)(ns, registry=self.regs[r])
+        except Exception as e:  # noqa: BLE001
+            return exc(e), [], r
+        # every object of the namespace belongs to r (or to a registry sharing r's containers)
+        reg = self.regs[r]
+        stray = 0
+        for v in ns.values():
+            u = v if hasattr(v, "is_Unit") else getattr(v, "units", None)
+            if u is not None and not (u.registry is reg or u.registry.lut is reg.lut):
+                stray += 1
+        return ("namespace", len(ns) > 0, stray), [], r
 
     def _mixed(self, a, b, form, qa, qb):
         """-> ('mixed', index of the registry the result belongs to or -1, …)"""
@@ -499,6 +518,9 @@ def oracle(hist):
                 bad(f"default-table-changed|{st[0]}", f"after step {k} {st} the default registry's table differs: {d}", k)
         else:
             start_rows = dict(obs[0]["rows"])
+        if st[0] == "namespace" and out[0] == "namespace" and out[2]:
+            bad(f"namespace-object-of-another-registry|{st[2]}",
+                f"step {k} {st}: {out[2]} objects of the namespace belong to a registry other than the one it was made from", k)
         # ---- mixing: the left operand's registry
         if st[0] == "mixed" and out[0] == "mixed":
             same = "same-registry" if out[3] else "two-registries"
